@@ -241,6 +241,13 @@ def build(case):
     built = Built()
     built.factors = build_factors(case)
     build_continuous(case, built.factors, built)
+    # C18: blocks built earlier in the same session, sharing factor objects and (through "share" keys) constraint objects
+    built.prelude_errors = []
+    for pb in case.get("prelude", []):
+        try:
+            build_block(case, built.factors, pb, built)
+        except Exception as e:           # the earlier block itself is not the subject
+            built.prelude_errors.append(type(e).__name__)
     built.block = build_block(case, built.factors, case["block"], built)
     return built
 
